@@ -53,3 +53,18 @@ Proof.
   { unfold gzip_kv in H. destruct (wants_gzip q); [|destruct H]. destruct H as [<-|[]]. split; cbn; auto. }
   destruct (did_ua (c_hdr q)); [destruct H|]. destruct H as [<-|[]]. split; cbn; auto.
 Qed.
+
+(* header.go headerSortedKeyValues - modelled by pooled_sorted: the pooled slice is truncated
+   (hs.kvs[:0]) before the request's non-excluded entries are appended and sorted *)
+Lemma header_sorted_key_values_go_as_modelled :
+  src_headerSortedKeyValues = bs "{ hs = headerSorterPool.Get().(*headerSorter) if cap(hs.kvs) < len(h) { hs.kvs = make([]header.KeyValues, 0, len(h)) } kvs = hs.kvs[:0] for k, vv := range h { if !exclude[k] { kvs = append(kvs, header.KeyValues{k, vv}) } } hs.kvs = kvs sort.Sort(hs) return kvs, hs }".
+Proof. reflexivity. Qed.
+
+(* http2 encodeHeaders refuses an oversized header list BEFORE the encoding pass (h2_client_step,
+   not h2_client_step_merged) *)
+Lemma h2_counting_pass_precedes_encoding : (h2_src_refuse_offset <? h2_src_encode_offset)%N = true.
+Proof. vm_compute. reflexivity. Qed.
+
+(* Transport.Clone hands the clone a COPY of the wrapper slice (fam_step FClone) *)
+Lemma clone_copies_wrappers_go_as_modelled : src_clone_wrappers = bs "cloneSlice(t.httpRoundTripWrappers)".
+Proof. reflexivity. Qed.
